@@ -435,7 +435,7 @@ func sitesMain(w *out.W, tier string) {
 			}
 			w.Case(id, line, []string{obs})
 			w.Count("site:EvalOptions.files")
-			if len(obs) > 8 && obs[:8] == "ef error" {
+			if obs == "ef error" {
 				w.Count("ef:error")
 			}
 			nt(fmt.Sprintf("ef%d/%v", b, p), n, p)
